@@ -93,6 +93,16 @@ pub fn run_c03(p: &mut Prng, _t: Tier, i: usize, sink: &mut Sink) {
                 w.exec(verify_op("big", true, "new"));
             }
         }
+        if matches!(_t, Tier::Thorough) {
+            // a message just past 2^29 bytes = 2^32 bits (a length counter kept in 32 bits wraps);
+            // thorough tier only: about 3 GiB of memory and a minute
+            w.exec(set("big.id", b"1234567812345678"));
+            w.exec(json!({"op":"set.fill","slot":"big.msg","len":(1u64 << 29) + 5,"seed":p.next_u64()}));
+            w.exec(json!({"op":"sm2.sign","impl":"lib","d":"big.d","id":"big.id","msg":"big.msg","sig":"big.sig","rng":rng_json(&uniform_script(p, 1))}));
+            w.exec(verify_op("big", true, "new"));
+            w.slots.remove("big.msg");
+            w.bump("history.message-of-2^29-bytes");
+        }
         w.bump("history.very-large-inputs");
     }
     if two_caller_run_c03(_t, i) {
